@@ -541,6 +541,113 @@ theorem gen_delslice_eq_model (v : V) (s e st : Option Int) :
   cases Py.ListSpec.delSlice v.values s e st <;> simp [map_error, map_ok, itemsOf]
 
 
+/-! ### T13b: the validation part of the generated constructor is the model's `ctor` -/
+
+theorem instOf_self (x : Val) : instOf x x.ty = true := by simp [instOf]
+
+theorem filterMap_id_map_some : ∀ (l : List Item), (∀ x ∈ l, ∃ y, x = some y) → (l.filterMap id).map some = l := by
+  intro l
+  induction l with
+  | nil => intro _; rfl
+  | cons a as ih =>
+    intro hl
+    obtain ⟨y, hy⟩ := hl a (by simp)
+    subst hy
+    simp only [List.filterMap_cons, id, List.map_cons]
+    rw [ih (fun x hx => hl x (by simp [hx]))]
+
+/-- `isinstance(x, T)` for an item, as the model's constructor spells it -/
+def okItem (t : VT) (x : Item) : Bool := match x with | some y => instOf y t | none => false
+
+/-- the model's constructor with the item test named -/
+theorem ctor_unfold (xs : List Item) (u : String) (vt : Option VT) :
+    ctor xs u vt = (match xs with
+      | [] => (match vt with | none => .error .TypeError | some t => .ok ⟨t, [], u⟩)
+      | first :: _ => (match first with
+        | none => .error .TypeError
+        | some f => if xs.all (okItem f.ty) then .ok ⟨f.ty, xs.filterMap id, u⟩ else .error .TypeError)) := by
+  unfold ctor
+  cases xs with
+  | nil => rfl
+  | cons first rest =>
+    cases first with
+    | none => rfl
+    | some f =>
+      have hiff : ∀ (l : List Item) (p q : Item → Bool), (∀ x, p x = q x) → l.all p = l.all q := by
+        intro l p q hpq; congr 1; funext x; exact hpq x
+      simp only
+      rw [hiff (some f :: rest) _ (okItem f.ty) (fun x => by cases x <;> rfl)]
+
+/-- the body of the generated check loop -/
+def ctorBody (index : Nat) (value : Item) (vt : ItemType) : Except PyErr ItemType :=
+  let vt : ItemType := if index = 0 then typeOf value else vt
+  if ¬ (isScalar value = true) then Except.error PyErr.TypeError else
+  if ¬ (itemInstOfType value vt = true) then Except.error PyErr.TypeError else
+  Except.ok vt
+
+/-- the check loop after its first iteration: the value type is fixed, every further item must be a scalar instance of it -/
+theorem forEnum_tail (t : VT) : ∀ (rest : List Item) (k : Nat),
+    forEnum rest (k + 1) (ItemType.scalar t) ctorBody
+      = if rest.all (okItem t) then .ok (ItemType.scalar t) else .error .TypeError := by
+  intro rest
+  induction rest with
+  | nil => intro k; rfl
+  | cons x rest ih =>
+    intro k
+    simp only [forEnum, List.all_cons]
+    cases x with
+    | none => simp [ctorBody, isScalar, Except.bind, okItem]
+    | some y =>
+      by_cases hy : instOf y t = true
+      · simp [ctorBody, isScalar, itemInstOfType, itemInstOf, hy, Except.bind, ih, okItem]
+      · simp [ctorBody, isScalar, itemInstOfType, itemInstOf, hy, Except.bind, okItem]
+
+/-- **the validation part of the generated constructor is the model's `ctor`**: an empty iterable needs a supported `value_type`;
+    otherwise the first item fixes the value type and every item must be a scalar instance of it; the items are stored as they came -/
+theorem gen_ctor_eq_model (xs : List Item) (vt : Option VT) (u : String) :
+    Gen.Vector.ctor_validate (.iterable xs) (VTArg.ofOption vt)
+      = (ctor xs u vt).map (fun v => (ItemType.scalar v.vtype, v.values.map some)) := by
+  rw [ctor_unfold]
+  unfold Gen.Vector.ctor_validate
+  simp only [Arg.items, Except.bind]
+  cases xs with
+  | nil =>
+    cases vt <;> simp [VTArg.ofOption, VTArg.falsy, VTArg.isSupported, VTArg.asItemType, Except.map]
+  | cons first rest =>
+    simp only [List.isEmpty_cons, Bool.false_eq_true, if_false]
+    show (Except.bind (forEnum (first :: rest) 0 ItemType.other ctorBody) fun vt => Except.ok (vt, first :: rest)) = _
+    cases first with
+    | none => simp [forEnum, ctorBody, isScalar, Except.bind, Except.map]
+    | some f =>
+      have h0 : ctorBody 0 (some f) ItemType.other = .ok (ItemType.scalar f.ty) := by
+        simp [ctorBody, typeOf, isScalar, itemInstOfType, itemInstOf, instOf_self]
+      simp only [forEnum, h0, Except.bind, Nat.zero_add]
+      rw [forEnum_tail f.ty rest 0]
+      have hfirst : okItem f.ty (some f) = true := by simp [okItem, instOf_self]
+      simp only [List.all_cons, hfirst, Bool.true_and]
+      by_cases hall : rest.all (okItem f.ty) = true
+      · simp only [hall, if_true, Except.map]
+        have hsome : ∀ x ∈ (some f :: rest), ∃ y, x = some y := by
+          intro x hx
+          cases hx with
+          | head => exact ⟨f, rfl⟩
+          | tail _ hx =>
+            rw [List.all_eq_true] at hall
+            have := hall x hx
+            cases x with
+            | none => simp [okItem] at this
+            | some y => exact ⟨y, rfl⟩
+        rw [filterMap_id_map_some _ hsome]
+      · simp [hall, Except.map]
+
+/-- an unsupported `value_type` (any object that is not one of the four types) is refused for an empty iterable -/
+theorem gen_ctor_refuses_other_value_type : Gen.Vector.ctor_validate (.iterable []) VTArg.other = .error .TypeError := by
+  simp [Gen.Vector.ctor_validate, Arg.items, Except.bind, VTArg.falsy, VTArg.isSupported]
+
+/-- a non-iterable `values` argument is refused -/
+theorem gen_ctor_refuses_non_iterable (vt : VTArg) : Gen.Vector.ctor_validate .other vt = .error .TypeError := by
+  simp [Gen.Vector.ctor_validate, Arg.items, Except.bind]
+
 -- non-vacuity of the generated methods
 example : Gen.Vector.setitem .int [some ⟨.int, 1⟩] (.int 0) (.scalar ⟨.bool, 1⟩ []) = .ok [some ⟨.bool, 1⟩] := by rfl
 example : Gen.Vector.setitem .int [some ⟨.int, 1⟩] (.int 0) (.scalar ⟨.str, 1⟩ []) = .error .TypeError := by rfl
